@@ -1,6 +1,15 @@
 #!/usr/bin/env python3
 """Writes /verif/MANIFEST.json from tools/manifest_table.json (one row per property)."""
-import json, os
+import json, os, subprocess
+
+def hook_commits():
+    # commits of /repo that touch the guarded hook files (verif_*.go, all behind //go:build verif)
+    try:
+        out = subprocess.run(["git", "-C", "/repo", "log", "--reverse", "--format=%h %s", "--", "*/verif_*.go"], capture_output=True, text=True).stdout
+        return [l.strip() for l in out.splitlines() if l.strip()]
+    except Exception:
+        return []
+
 here = os.path.dirname(os.path.abspath(__file__))
 root = os.path.dirname(here)
 tab = json.load(open(os.path.join(here, "manifest_table.json")))
@@ -28,7 +37,7 @@ m = {
         "guard": "verif",
         "enable": "-tags verif (govc loads /repo with this tag; files verif_*.go hold contracts as comments and ghost lemma functions)",
         "baseline_off_cmd": "cd /repo && GOFLAGS=-mod=mod GOPROXY=off go test -vet=off -count=1 ./...",
-        "source_commits": tab.get("hook_commits", []),
+        "source_commits": hook_commits(),
         "add_only": True,
     },
     "engines": [{"name": "govc", "path": "/verif/govc", "serves_properties": [c["property_id"] for c in checks],
